@@ -513,10 +513,11 @@ func (m *omap) delete(w *world, k value) {
 type omapIter struct {
 	m   *omap
 	pos int
+	end int // entries present when the range started (later insertions are not visited)
 }
 
 func (it *omapIter) next(w *world) tuple {
-	for it.m != nil && it.pos < len(it.m.entries) {
+	for it.m != nil && it.pos < it.end && it.pos < len(it.m.entries) {
 		e := it.m.entries[it.pos]
 		it.pos++
 		if !e.deleted {
